@@ -232,6 +232,8 @@ def c11(rep, tier):
     r_cmp.run_cmp_orientation(p, rep)
     r_cmp.run_no_identity(p, rep)
     r_table.run_missing_key_eq(p, rep)
+    r_cmp.run_one_sided(p, rep)
+    r_cmp.run_sort_purity(p, rep)
     r_cmp.run_contains(p, rep)
     r_cmp.run_value_symmetry(p, rep)
     r_cmp.run_orderins(p, rep, [r_cmp.CORE_FNS["value_eq"], r_cmp.CORE_FNS["value_cmp"]])
@@ -250,6 +252,9 @@ def c14(rep, tier):
     r_cmp.run_mirror(p, rep)
     r_cmp.run_cmp_orientation(p, rep)
     r_unit.run_slice_window(p, rep)
+    r_cmp.run_uniq_kept(p, rep)
+    r_table.run_first_last_kind(p, rep)
+    r_table.run_missing_key_eq(p, rep)
     r_table.run_filter_ops(p, rep, only=["array::"])
     r_table.run_missing_property(p, rep)
     r_table.run_state_use(p, rep, only=["WhereFilter"])
@@ -262,6 +267,8 @@ def c15(rep, tier):
     r_math.run(p, rep)
     r_math.run_coerce(p, rep)
     r_math.run_round_cast(p, rep)
+    r_math.run_float_path(p, rep)
+    r_views.run_cast(p, rep)
     r_table.run_filter_ops(p, rep, only=["math::"])
     rep.analysed["config:all"] = {"bodies": len(p.fns)}
 
@@ -384,6 +391,7 @@ def c13(rep, tier):
     r_unit.run(p, rep)
     r_unit.run_unit_mix(p, rep)
     r_unit.run_slice_window(p, rep)
+    r_table.run_first_last_kind(p, rep)
     r_unit.run_split_join(p, rep)
     r_unit.run_truncate_decision(p, rep)
     r_table.run_filter_ops(p, rep, only=["string::", "html::NewlineToBr", "slice::", "SizeFilter"])
@@ -400,6 +408,7 @@ def c12(rep, tier):
     r_views.run_forwarders(p, rep)
     r_views.run_string_siblings(p, rep)
     r_views.run_variant_key(p, rep)
+    r_views.run_char_bridge(p, rep)
     r_views.run_cast(p, rep)
     r_views.run_derived(p, rep)
     r_table.run_truth_table(p, rep)
